@@ -121,3 +121,27 @@ class replace_edge:
             nodes_view(graph, replacement, result[0], vals(replacement._nodes)) and graph._ext == old(graph._ext)),
         "wf": lambda graph: wf_graph(graph),
     }
+
+
+# ---- start_graph (C15): one edge labelled by the start symbol on fresh, pairwise distinct nodes of its type ------------
+@contract("fggs.derivations.start_graph")
+class start_graph:
+    sig = {"g": "HRGStart"}
+    properties = ["C15"]
+    requires = lambda g: g._start.is_nonterminal
+    ensures = {
+        "one_edge": lambda g, result: exists(lambda k: k in result._edges
+                                             and forall(lambda k2: implies(k2 in result._edges, k2 == k), "Id")
+                                             and result._edges[k].label == g._start
+                                             and len(result._edges[k].nodes) == len(g._start.node_labels), "Id"),
+        # the attachment nodes are pairwise different nodes (one per position of the start symbol's type), all fresh
+        "distinct_fresh_nodes": lambda g, result: forall(lambda k, i, j: implies(
+            k in result._edges and 0 <= i and i < j and j < len(result._edges[k].nodes),
+            result._edges[k].nodes[i].id != result._edges[k].nodes[j].id
+            and not was_alive(int_of(result._edges[k].nodes[i].id))), "Id,int,int"),
+        "nodes_are_the_attachments": lambda g, result: forall(lambda m: implies(
+            m in result._nodes, exists(lambda k, i: k in result._edges and 0 <= i and i < len(result._edges[k].nodes)
+                                       and result._edges[k].nodes[i].id == m, "Id,int")), "Id"),
+        "no_externals": lambda result: len(result._ext) == 0,
+        "wf": lambda result: wf_graph(result),
+    }
